@@ -30,9 +30,9 @@ ASSUMPTIONS = [
     '(Django could not load the remaining models otherwise)',
 ]
 FLOORS = {'quick': {'nontrivial': 20, 'tables_compared': 100,
-                    'stale_referrer_cases': 4},
+                    'stale_referrer_cases': 4, 'partial_purges': 1},
           'thorough': {'nontrivial': 300, 'tables_compared': 1500,
-                       'stale_referrer_cases': 50}}
+                       'stale_referrer_cases': 50, 'partial_purges': 10}}
 SIZES = {'quick': 64, 'thorough': 600}
 TIMEOUT = {'quick': 170, 'thorough': 1700}
 APPS = ('app1', 'app2', 'app3', 'app4')
@@ -222,18 +222,38 @@ def run_case(desc):
             ev = proj.run('evolve_cmd', version=0, db=db, apps=keep_apps,
                           args={'purge': True})
         else:
+            purge_args = {'purge': True}
+            if len(subset) >= 2 and rng.random() < 0.5:
+                # only some of the stale apps are purged: the others keep
+                # their tables and their signature entries
+                part = set(rng.sample(sorted(subset),
+                                      rng.randint(1, len(subset) - 1)))
+                if removable(spec, [a for a in apps
+                                    if a not in (subset - part)], part) and \
+                        not any(fd.get('to', '').split('.')[0] in part
+                                for a in subset - part
+                                for ms in spec[a].values()
+                                for _n, fd in ms['fields']):
+                    purge_args = {'purge_apps': sorted(part)}
+                    stats['partial_purges'] = 1
+                    case['purged_apps'] = sorted(part)
+                    removed_tables = set(t for a in part for m in spec[a]
+                                         for t in S.owned_tables(spec, a, m))
+                    removed_sig = set(part)
             ev = proj.run('evolve_api', version=0, db=db, apps=keep_apps,
-                          args={'purge': True, 'force': True,
-                                'no_facts_before': True})
+                          args=dict(purge_args, force=True,
+                                    no_facts_before=True))
         ctx = {'mode': mode}
         if mode != 'delete_model':
             ctx['n_removed_apps'] = len(subset)
             stats['removed_%d_apps' % len(subset)] = 1
         if mode != 'delete_model' and mode != 'no_purge':
+            psub = set(case.get('purged_apps') or subset)
             ctx['removed_app_has_internal_relation'] = any(
-                fd.get('to', '').split('.')[0] in subset
-                for a in subset for ms in spec[a].values()
+                fd.get('to', '').split('.')[0] in psub
+                for a in psub for ms in spec[a].values()
                 for _n, fd in ms['fields'])
+            ctx['partial_purge'] = bool(case.get('purged_apps'))
         if ev.get('driver_error'):
             return {'key': S.canon(desc), 'nontrivial': False, 'items': [],
                     'stats': stats, 'case': case,
@@ -288,7 +308,8 @@ def run_case(desc):
                                       app=a))
         # a further run is a no-op
         sha = proj.sha(db)
-        args = {'purge': True} if mode in ('purge_cmd', 'purge_api') else {}
+        args = {'purge': True} if mode in ('purge_cmd', 'purge_api') and \
+            not case.get('purged_apps') else {}
         ev2 = proj.run('evolve_cmd', version=1 if mode == 'delete_model'
                        else 0, db=db, apps=keep_apps, args=args)
         if not ev2.get('driver_error'):
